@@ -212,6 +212,7 @@ type live struct {
 	ref   nodes.NodeOutputReference
 	value func() int
 	set   func(v int) error // parameters only
+	bad   func(v int) error // parameters fed by messages: an update that is rejected after a valid prefix
 	m     *meta             // struct nodes only
 }
 
